@@ -620,32 +620,24 @@ pub fn collect_protocol_fees(deps: DepsMut) -> Result<Response, ContractError> {
 
     // get the collected protocol fees so far
     let protocol_fees = COLLECTED_PROTOCOL_FEES.load(deps.storage)?;
-    // reset the collected protocol fees
-    COLLECTED_PROTOCOL_FEES.save(
-        deps.storage,
-        &vec![
-            Asset {
-                info: protocol_fees[0].clone().info,
-                amount: Uint128::zero(),
-            },
-            Asset {
-                info: protocol_fees[1].clone().info,
-                amount: Uint128::zero(),
-            },
-            Asset {
-                info: protocol_fees[2].clone().info,
-                amount: Uint128::zero(),
-            },
-        ],
-    )?;
 
     let mut messages: Vec<CosmosMsg> = Vec::new();
+    let mut remaining_protocol_fees: Vec<Asset> = Vec::new();
     for protocol_fee in protocol_fees {
         // prevents sending protocol fees if the amount is less than the minimum collectable balance
         if protocol_fee.amount > MINIMUM_COLLECTABLE_BALANCE {
+            // reset the collected protocol fees for the asset that is being sent
+            remaining_protocol_fees.push(Asset {
+                info: protocol_fee.info.clone(),
+                amount: Uint128::zero(),
+            });
             messages.push(protocol_fee.into_msg(config.fee_collector_addr.clone())?);
+        } else {
+            // fees below the minimum collectable balance stay owed until they can be collected
+            remaining_protocol_fees.push(protocol_fee);
         }
     }
+    COLLECTED_PROTOCOL_FEES.save(deps.storage, &remaining_protocol_fees)?;
 
     Ok(Response::default()
         .add_attribute("action", "collect_protocol_fees")
